@@ -1,4 +1,5 @@
 import FlatModel.Model.Region
+import FlatModel.Generated.SourceFacts
 /-! `CodecRegion<DictionaryCodec>` (src/impls/codec.rs), after repairs D6/D7. -/
 namespace FC.Codec
 
@@ -27,19 +28,23 @@ def consolidate (l : List (Bytes × Nat)) : List (Bytes × Nat) :=
     | none => [(k, c)]) []
   merged.filter (·.2 != 0)
 
-/-- `MisraGries<Vec<u8>>` with `Vec::with_capacity(1024)` -/
+/-- `MisraGries<Vec<u8>>` as built by `MisraGries::default()`: `Vec::with_capacity(MG.cap)` -/
 structure MG where
   inner : List (Bytes × Nat)
 deriving Inhabited
 
-def MG.cap : Nat := 1024
+/-- the capacity of the summary's vector: the literal in `impl<T> Default for MisraGries<T>`, re-extracted from the
+crate's source on every run (tools/gen_facts.py); 1024 in the crate as verified -/
+def MG.cap : Nat := FC.Generated.mgCapacity
+/-- `let k = self.inner.capacity() / 2` in `tidy`: how many entries a compaction keeps at most -/
+abbrev MG.k : Nat := MG.cap / 2
 
 def MG.done (m : MG) : List (Bytes × Nat) :=
   sortBy (fun x y => y.2 < x.2) (consolidate m.inner)
 
 def MG.tidy (m : MG) : MG :=
   let l := sortBy (fun x y => y.2 < x.2) (consolidate m.inner)
-  let k := MG.cap / 2
+  let k := MG.k
   if l.length > k then
     let sub := (l[k]!).2 - 1
     let l := (l.take k).map fun (b, w) => (b, w - sub)
